@@ -9,7 +9,8 @@ import sys
 def main():
     src = sys.argv[1]
     blob = json.load(sys.stdin if src == "-" else open(src))
-    sys.path.insert(0, "/repo")
+    import os
+    sys.path.insert(0, os.environ.get("VERIF_REPO", "/repo"))
     for ext in ("dulwich._pack", "dulwich._objects", "dulwich._diff_tree"):
         sys.modules[ext] = None
     mod = importlib.import_module(blob["module"])
